@@ -471,6 +471,22 @@ def check_kani_property(prop, spec, tier):
         else:
             unreplayed.append((h, rpath, r["failed"]))
 
+    extra_cov = {}
+    if spec.get("extra"):
+        try:
+            ex = spec["extra"](prop, tier)
+        except Exception as e:  # never let an auxiliary query turn into a pass
+            ex = {"coverage": {}, "violations": [], "inconclusive": ["auxiliary query failed: %s" % e]}
+        extra_cov = ex.get("coverage", {})
+        for desc, payload in ex.get("violations", []):
+            rdir = os.path.join(WORK, "replay")
+            os.makedirs(rdir, exist_ok=True)
+            rpath = os.path.join(rdir, "%s-extra-%s.json" % (prop, hashlib.sha1(desc.encode()).hexdigest()[:10]))
+            with open(rpath, "w") as f:
+                json.dump({"engine": "smt", "property": prop, "what": desc, "query": payload}, f, indent=1)
+            violations.append(("auxiliary SMT query", rpath, [{"desc": desc, "cat": "smt", "fn": "", "loc": ""}]))
+        for w in ex.get("inconclusive", []):
+            inconclusive.append(("auxiliary SMT query", w))
     wall = time.time() - t0
     samples = [{"harness": x["harness"], "bound": {"unwind": x["unwind"]}, "what": x["what"], "verdict": x["verdict"],
                 "cbmc_properties": x["checks"], "covers": x["covers"]} for x in hrecords[:12]]
@@ -503,6 +519,7 @@ def check_kani_property(prop, spec, tier):
         "inconclusive": [{"harness": h, "why": w} for h, w in inconclusive],
         "repo": repo_state(),
     }
+    coverage.update(extra_cov)
     ev = write_evidence(prop, tier, spec.get("level", "model_checking"), coverage, spec.get("assumptions", []),
                         wall, len(violations))
     for k, h in known_hits:
